@@ -1,9 +1,11 @@
 package main
 
 import (
+	"encoding/json"
 	"fmt"
 	"io/ioutil"
 	"net/http"
+	"os"
 	"regexp"
 	"sort"
 	"strconv"
@@ -132,7 +134,7 @@ func (c *cluster) judgeSuffixOnly() {
 	fs, _, _ := judgeSuffixKeys(sev)
 	done := map[string]bool{}
 	for _, f := range fs {
-		key := f.key + ":" + c.t.class()
+		key := f.key + ":" + c.class()
 		if done[key] {
 			continue
 		}
@@ -152,6 +154,10 @@ func (c *cluster) judge() {
 	dcl := append([]suffixEv(nil), c.dcloc...)
 	c.wmu.Unlock()
 
+	if dump := os.Getenv("VERIF_C05_DUMP"); dump != "" { // development aid: the whole recorded history
+		b, _ := json.Marshal(map[string]interface{}{"ops": ops, "notes": notes, "suffix": sev})
+		ioutil.WriteFile(dump+"."+c.t.Name+".json", b, 0o644)
+	}
 	var fs []finding
 	add := func(f finding) { fs = append(fs, f) }
 
@@ -376,8 +382,8 @@ func (c *cluster) judge() {
 		}
 		if f := floorCross[g]; f != nil {
 			cause := ""
-			if f.bits != g.bits {
-				cause = ":width-mismatch"
+			if f.bits != g.bits && f.o.Physical == g.o.Physical {
+				cause = ":width-mismatch" // the suffix width only matters inside one physical millisecond
 			}
 			if isG {
 				crossPairsLG++
@@ -470,7 +476,7 @@ func (c *cluster) judge() {
 	}
 	done := map[string]bool{}
 	for _, f := range fs {
-		key := f.key + ":" + c.t.class()
+		key := f.key + ":" + c.class()
 		if done[key] {
 			continue
 		}
